@@ -2,7 +2,7 @@
 
 use std::collections::HashMap;
 
-use flipdot_core::{Frame, Message};
+use flipdot_core::{Data, Frame, Message, Offset};
 
 use crate::refs::{self, RefMsg};
 use crate::util::{Ctx, J, Outcome, Report, catch, floor, fnv, hex, run_sharded, short_loc, show_bytes};
@@ -38,6 +38,22 @@ pub fn check_message(m: &RefMsg, rep: &mut Report) -> Option<Vec<u8>> {
         let (a, t, d) = refs::build(m);
         if wire != refs::enc(a, t, &d) {
             bad.push(("wire_form", show_bytes(&refs::enc(a, t, &d)), show_bytes(&wire)));
+        }
+        // the same chunk with its data BORROWED from the caller's memory, starting 0..7 bytes past an 8-aligned address
+        // (the controller sends slices of a page): the same message, the same wire form
+        if let RefMsg::Data { offset, data } = m {
+            let lead = (usize::from(*offset >> 2) ^ data.len()) % 8;
+            let mut room = vec![0xEEu64; data.len() / 8 + 3];
+            let room_bytes: &mut [u8] = unsafe { std::slice::from_raw_parts_mut(room.as_mut_ptr().cast::<u8>(), room.len() * 8) };
+            room_bytes[lead..lead + data.len()].copy_from_slice(data);
+            let bm = Message::SendData(Offset(*offset), Data::try_new(&room_bytes[lead..lead + data.len()]).expect("<=255"));
+            if bm != msg {
+                bad.push(("borrowed_chunk_differs", sig.clone(), format!("{:?}", bm)));
+            }
+            let bw = Frame::from(bm).to_bytes_with_newline();
+            if bw != refs::enc_crlf(a, t, &d) {
+                bad.push(("wire_form", show_bytes(&refs::enc_crlf(a, t, &d)), format!("{} (data borrowed at +{})", show_bytes(&bw), lead)));
+            }
         }
         for (label, w) in [("plain", &wire), ("crlf", &wire_nl)] {
             match Frame::from_bytes(w) {
